@@ -626,6 +626,15 @@ def contracts_c02(hints):
             return Contract(ensures=inv_ens, tags=('identity',), closures=cl, tail='if det@ != 0real { %s }' % hints[('inv', n)])
         if tn == 'Transform' and name == 'inverse_transform':
             return Contract(ensures=inv_ens)
+        if tn == 'Transform' and name == 'concat_self':
+            return Contract(ensures=['*final(self) == %s_mul(*old(self), *$1)' % p])
+        if tn == 'Transform' and name == 'inverse_transform_vector':
+            dim = trait_args(im.trait).strip()[5]
+            tv = {('3', '2'): 'm3_transform_vector2', ('3', '3'): 'm3_mulv', ('4', '3'): 'm4_transform_vector3'}[(str(n), dim)]
+            cl = {0: dict(params='inverse: Matrix%d<Sc>' % n, ret='r: Vector%s<Sc>' % dim, ensures=['r == %s(inverse, vec)' % tv])}
+            return Contract(ensures=['ret.is_none() <==> %s_det(*self)@ == 0real' % p,
+                                     'ret.is_some() ==> exists|nn: Matrix%d<Sc>| #[trigger] %s_mul(*self, nn) == %s_identity() && %s_mul(nn, *self) == %s_identity() && ret.unwrap() == %s(nn, $1)' % (n, p, p, p, p, tv)],
+                            closures=cl)
         return None
     return fn
 
